@@ -168,16 +168,17 @@ type Op struct {
 
 // Case is a complete history.
 type Case struct {
-	Property  string  `json:"property,omitempty"`
-	StartDown []int   `json:"startDown"`
-	BadInit   string  `json:"badInit,omitempty"` // construct with invalid options first (must fail and leave nothing behind)
-	MinSize   int     `json:"minSize,omitempty"` // channel pool minSize of the gRPC-GCP config handed to GCPMultiEndpoint (0 = absent)
-	InPlace   bool    `json:"inPlace,omitempty"` // the caller keeps one options object and edits it in place between updates
-	MaxSize   int     `json:"maxSize,omitempty"`
-	UserOpts  int     `json:"userDialOptions,omitempty"` // extra dial options of the caller: 1 default service config selecting pick_first, 2 one with only a retry policy, 3 one with another grpc_gcp config, 4 a user agent
-	Init      Options `json:"init"`
-	Ops       []Op    `json:"ops"`
-	Failure   *Fail   `json:"failure,omitempty"`
+	Property   string  `json:"property,omitempty"`
+	StartDown  []int   `json:"startDown"`
+	BadInit    string  `json:"badInit,omitempty"` // construct with invalid options first (must fail and leave nothing behind)
+	MinSize    int     `json:"minSize,omitempty"` // channel pool minSize of the gRPC-GCP config handed to GCPMultiEndpoint (0 = absent)
+	InPlace    bool    `json:"inPlace,omitempty"` // the caller keeps one options object and edits it in place between updates
+	MaxSize    int     `json:"maxSize,omitempty"`
+	UserOpts   int     `json:"userDialOptions,omitempty"` // extra dial options of the caller: 1 default service config selecting pick_first, 2 one with only a retry policy, 3 one with another grpc_gcp config, 4 a user agent
+	NoDialFunc bool    `json:"noDialFunc,omitempty"`      // no DialFunc in the options: the library dials itself with the caller\'s options (reduced scenario, see RunDefaultDialer)
+	Init       Options `json:"init"`
+	Ops        []Op    `json:"ops"`
+	Failure    *Fail   `json:"failure,omitempty"`
 }
 
 // Fail is an oracle failure.
@@ -617,6 +618,9 @@ func waitBaseline(g0, m0 int) bool {
 
 // Run executes one case.
 func Run(c *Case, props map[string]bool) (res Result) {
+	if c.NoDialFunc {
+		return RunDefaultDialer(c, props)
+	}
 	w := &world{props: props, labels: map[string]int{}, dialed: map[string][]*grpc.ClientConn{}, up: map[string]bool{}, mes: map[string][]string{}}
 	res.Labels = w.labels
 	all := endpoints()
@@ -909,9 +913,20 @@ func Run(c *Case, props map[string]bool) (res Result) {
 	}
 	w.step = len(c.Ops)
 	if err := gme.Close(); err != nil {
-		w.labels["close-error"]++
+		// a ClientConn's Close only fails when it was closed before: a pool the object still held was closed already
+		w.fail("C16", "close-error", "Close of a healthy object returned %v: it still held a pool that had been closed before", err)
 	}
 	closed = true
+	if len(c.Ops)%3 == 0 {
+		// a second Close finds every pool closed: it may report that, it must not panic or hang
+		if err := gme.Close(); err != nil {
+			if err.Error() == "" {
+				w.fail("C16", "close-twice", "second Close returned an error with an empty text")
+			}
+			w.labels["second-close-reports-errors"]++
+		}
+		w.labels["closed-twice"]++
+	}
 	for e, conns := range w.dialed {
 		for _, cc := range conns {
 			if cc.GetState() != connectivity.Shutdown {
@@ -1003,4 +1018,173 @@ func userDialOptions(k int) []grpc.DialOption {
 		return []grpc.DialOption{grpc.WithUserAgent("caller")}
 	}
 	return nil
+}
+
+// RunDefaultDialer is the reduced scenario for a GCPMultiEndpoint built WITHOUT a DialFunc (the library then
+// dials the endpoint name itself with the caller's options) and through the deprecated constructor alias.
+// The caller's options carry one dialer for all endpoints; the pool an RPC entered is read from the
+// ClientConn's target. The pools themselves are not visible here, so the oracle is: every context routes to
+// the top reachable endpoint of its MultiEndpoint within the bound (C15), transport connections exist only to
+// mentioned endpoints once things are quiet, and after Close nothing is left (C16).
+func RunDefaultDialer(c *Case, props map[string]bool) (res Result) {
+	w := &world{props: props, labels: map[string]int{}, dialed: map[string][]*grpc.ClientConn{}, up: map[string]bool{}, mes: map[string][]string{}}
+	res.Labels = w.labels
+	all := endpoints()
+	for _, n := range EPNames {
+		all[n].set(true)
+		w.up[n] = true
+	}
+	for _, i := range c.StartDown {
+		n := EPNames[((i%len(EPNames))+len(EPNames))%len(EPNames)]
+		w.up[n] = false
+		all[n].set(false)
+	}
+	runtime.Gosched()
+	g0, m0 := runtime.NumGoroutine(), monitors()
+	var gme *grpcgcp.GCPMultiEndpoint
+	closed := false
+	defer func() {
+		if gme != nil && !closed {
+			func() {
+				defer func() { recover() }()
+				gme.Close()
+			}()
+		}
+		waitBaseline(g0, m0)
+		if r := recover(); r != nil {
+			switch x := r.(type) {
+			case failure:
+				res.Fail = x.f
+			case abortOther:
+				res.Aborted = x.prop
+			default:
+				res.Fail = &Fail{Prop: "C15", Rule: "panic", Step: w.step, Msg: fmt.Sprint(r)}
+				if !props["C15"] {
+					res.Fail.Prop = "C16"
+				}
+			}
+		}
+	}()
+	rec := func(ctx context.Context, method string, req, reply interface{}, cc *grpc.ClientConn, invoker grpc.UnaryInvoker, opts ...grpc.CallOption) error {
+		if p, ok := ctx.Value(recKey{}).(*string); ok {
+			*p = cc.Target()
+		}
+		return invoker(ctx, method, req, reply, cc, opts...)
+	}
+	dial := func(ctx context.Context, addr string) (net.Conn, error) {
+		e := all[addr]
+		if e == nil {
+			return nil, fmt.Errorf("unknown endpoint %q", addr)
+		}
+		return e.dial(ctx, addr)
+	}
+	srec := func(ctx context.Context, desc *grpc.StreamDesc, cc *grpc.ClientConn, method string, streamer grpc.Streamer, opts ...grpc.CallOption) (grpc.ClientStream, error) {
+		if p, ok := ctx.Value(recKey{}).(*string); ok {
+			*p = cc.Target()
+		}
+		return streamer(ctx, desc, cc, method, opts...)
+	}
+	dopts := append(userDialOptions(c.UserOpts), grpc.WithChainUnaryInterceptor(rec), grpc.WithChainStreamInterceptor(srec), grpc.WithContextDialer(dial), grpc.WithTransportCredentials(insecure.NewCredentials()),
+		grpc.WithConnectParams(grpc.ConnectParams{Backoff: backoff.Config{BaseDelay: 5 * time.Millisecond, Multiplier: 1, MaxDelay: 5 * time.Millisecond}, MinConnectTimeout: 50 * time.Millisecond}))
+	w.step = -1
+	o, model, def := c.Init.build(w)
+	o.DialFunc = nil
+	if c.MinSize > 0 || c.MaxSize > 0 {
+		o.GRPCgcpConfig = &pb.ApiConfig{ChannelPool: &pb.ChannelPoolConfig{MinSize: uint32(c.MinSize), MaxSize: uint32(c.MaxSize)}}
+	}
+	var err error
+	if len(c.StartDown)%2 == 0 {
+		gme, err = grpcgcp.NewGcpMultiEndpoint(o, dopts...) // the deprecated spelling is documented to be the same constructor
+		w.labels["deprecated-constructor-alias"]++
+	} else {
+		gme, err = grpcgcp.NewGCPMultiEndpoint(o, dopts...)
+	}
+	if err != nil || gme == nil {
+		w.fail("C15", "construct", "NewGCPMultiEndpoint without DialFunc rejected valid options: %v", err)
+	}
+	w.labels["constructed-without-dial-func"]++
+	w.mes, w.def = model, def
+	follow := func(what string) {
+		ctxs := append([]string{"", "no-such-multiendpoint"}, MENames...)
+		for _, name := range ctxs {
+			list := w.mes[w.meFor(name)]
+			want := topUp(list, w.up)
+			if want == "" {
+				continue
+			}
+			deadline := time.Now().Add(10 * time.Second)
+			w.gme, w.client = gme, hw.NewGreeterClient(gme)
+			for {
+				got := Probe(gme, name, 300*time.Millisecond)
+				if got == want || (w.pendingDups[w.meFor(name)] && got != "" && w.up[got]) {
+					// a stream opened now takes the same way
+					sgot, p := w.route(name, true, true)
+					if p != nil {
+						panic(p)
+					}
+					if sgot == got || (w.pendingDups[w.meFor(name)] && sgot != "" && w.up[sgot]) {
+						break
+					}
+					got = "stream:" + sgot
+				}
+				if time.Now().After(deadline) {
+					w.fail("C15", "routing-default-dialer", "%s: 10s later context %q still enters pool %q, want %q (MultiEndpoint %q %v, reachable %v)", what, name, got, want, w.meFor(name), list, w.upList())
+				}
+				time.Sleep(2 * time.Millisecond)
+			}
+			w.labels["routing-followed"]++
+		}
+		// transports only to mentioned endpoints (pools of endpoints no longer mentioned are closed)
+		ment := mentioned(w.mes)
+		for _, e := range EPNames {
+			if ment[e] {
+				continue
+			}
+			for dl := time.Now().Add(5 * time.Second); all[e].liveConns() > 0; time.Sleep(time.Millisecond) {
+				if time.Now().After(dl) {
+					w.fail("C15", "pool-set-default-dialer", "%s: endpoint %s is not mentioned by any MultiEndpoint but still has %d transport connections after 5s", what, e, all[e].liveConns())
+				}
+			}
+		}
+	}
+	follow("create")
+	for i := range c.Ops {
+		op := &c.Ops[i]
+		w.step = i
+		switch op.K {
+		case "down", "up":
+			e := EPNames[((op.E%len(EPNames))+len(EPNames))%len(EPNames)]
+			w.up[e] = op.K == "up"
+			all[e].set(w.up[e])
+		case "update":
+			if op.Opts == nil || op.Bad != "" {
+				continue
+			}
+			uo, umodel, udef := op.Opts.build(w)
+			uo.DialFunc = nil
+			if err := gme.UpdateMultiEndpoints(uo); err != nil {
+				w.fail("C15", "update-rejected", "valid update rejected: %v", err)
+			}
+			w.mes, w.def = umodel, udef
+			w.labels["update"]++
+		default:
+			continue
+		}
+		follow(fmt.Sprintf("after %s", op.K))
+	}
+	w.step = len(c.Ops)
+	gme.Close()
+	closed = true
+	for _, e := range EPNames {
+		for dl := time.Now().Add(5 * time.Second); all[e].liveConns() > 0; time.Sleep(time.Millisecond) {
+			if time.Now().After(dl) {
+				w.fail("C16", "close-leak", "Close left %d transport connections to %s open", all[e].liveConns(), e)
+			}
+		}
+	}
+	if !waitBaseline(g0, m0) {
+		w.fail("C16", "close-goroutines", "goroutines after Close: %d, before construction: %d (monitors still running: %d)", runtime.NumGoroutine(), g0, monitors()-m0)
+	}
+	w.labels["closed"]++
+	return
 }
